@@ -84,6 +84,7 @@ func (m *baseMocker) applyByName(funcName string, callback interface{}) {
 	m.guard = newPatchMockGuard(guard)
 	m.guard.Apply()
 	m.imp = callback
+	m.canceled = false
 }
 
 // applyByFunc 根据函数应用 mock
@@ -96,6 +97,7 @@ func (m *baseMocker) applyByFunc(funcDef interface{}, callback interface{}) {
 	m.guard = newPatchMockGuard(guard)
 	m.guard.Apply()
 	m.imp = callback
+	m.canceled = false
 	m.funcDef = funcDef
 }
 
@@ -109,6 +111,7 @@ func (m *baseMocker) applyByMethod(structDef interface{}, method string, callbac
 	m.guard = newPatchMockGuard(guard)
 	m.guard.Apply()
 	m.imp = callback
+	m.canceled = false
 	m.funcDef = reflect.ValueOf(structDef).MethodByName(method).Interface()
 }
 
@@ -129,6 +132,7 @@ func (m *baseMocker) applyByIFaceMethod(ctx *iface.IContext, iFace interface{}, 
 	m.guard = newIFaceMockGuard(ctx)
 	m.guard.Apply()
 	m.imp = callback
+	m.canceled = false
 }
 
 // whens 指定的返回值
